@@ -64,15 +64,17 @@ CLAIMED = {
         technique="Coq refinement proof (splitter model = cut-at-unquoted-IFS specification, all inputs) + differential correspondence + specification extracted from Coq as oracle",
         design="5 C14"),
     "C16": dict(
-        text=("Model of Glob (component loop, literal fast path, directory scan with the hidden-name rule, separator search) over an abstract "
-              "file-system tree, and an independent component-wise specification built on C12's denotation. Proved: the sorting step returns an "
-              "ascending permutation. The full statement glob_model = glob_spec is stated in Props/C16.v but NOT yet proved; it is decided on "
-              "every run by evaluating the extracted specification on the implementation's answers over random materialised trees (files, "
-              "directories, dot files, dangling symlinks, metacharacter and multi-byte names) with patterns generalised from the tree, and by "
-              "model correspondence; the harness also Lstat()s every returned path."),
+text=("Model of Glob (component loop, literal fast path, directory scan with the hidden-name rule, separator search, sort after every "
+              "component, early exit) over an abstract file-system tree, and an independent component-wise specification built on C12's denotation. "
+              "Proved, for every tree whose names contain no separator, every working directory and every pattern: when the model returns paths "
+              "they are exactly the specification's list, ascending, each once (C16_glob_exact; Pattern/GlobExact.v: the matcher Glob uses is the "
+              "denotation, a compiled component starts with a literal period exactly when its text does, every step of the loop is a permutation "
+              "of the specification's step, appending a separator keeps the order because no path is a proper prefix of another, and an ascending "
+              "permutation is unique). Tie on every run: model correspondence on materialised random trees (symlinks included) and the extracted "
+              "specification evaluated on the implementation's own answers."),
         note=BASE_NOTE + "Modelled, not verified: the OS file system (os.Lstat/Stat/Open/Readdirnames as path resolution on a tree; no symlinks "
              "other than dangling ones, no permissions, no concurrent modification).",
-        technique="Coq lemmas on the Glob model + differential correspondence on materialised trees + specification extracted from Coq as oracle",
+        technique="Coq refinement proof (Glob model = component-wise specification, every tree and pattern) + differential correspondence on materialised trees + extracted specification as oracle",
         design="5 C16"),
     "C01": dict(
         text=("Proved: (1) the bail-out of both lexer goroutines never crashes the process under either panicnil setting -- what they panic with and "
